@@ -5,7 +5,7 @@
 //! ops (one per line, keys/values hex, `-` = empty):
 //!   ingest K.TS.V,K.TS.~,...   build an sst with these entries (sorted here: key asc, ts desc)
 //!                              and hand it to LsmTree::ingest
-//!   get K,K,...  | compact | dump | ls
+//!   get K,K,...  | compact | select | perform IDX | dump | ls
 //! Compaction is single-stepped through LsmTree::verif_compaction_step; the session ends by exit.
 use std::collections::HashSet;
 use std::io::{BufRead, Write};
@@ -108,6 +108,8 @@ fn main() {
     out.flush().unwrap();
     let mut seen = HashSet::new();
     let mut serial = 0u64;
+    // compactions selected (left in the ongoing list) and not yet performed
+    let pending: std::sync::Mutex<Vec<Option<lsmtk::VerifPending>>> = std::sync::Mutex::new(vec![]);
     let stdin = std::io::stdin();
     for line in stdin.lock().lines() {
         let line = line.unwrap();
@@ -168,6 +170,25 @@ fn main() {
                     Ok(Some(c)) => format!("COMPACT {} {} {} {} {} {}", c.lower_level, c.upper_level, hx0(&c.first_key), hx0(&c.last_key), c.size, c.inputs.join(",")),
                     Err(e) => format!("COMPACT err {}", err_class(&e)),
                 },
+                "select" => match tree.verif_compaction_select() {
+                    None => "SELECT none".into(),
+                    Some((c, p)) => {
+                        let mut pend = pending.lock().unwrap();
+                        pend.push(Some(p));
+                        format!("SELECT {} {} {} {} {} {} {}", pend.len() - 1, c.lower_level, c.upper_level, hx0(&c.first_key), hx0(&c.last_key), c.size, c.inputs.join(","))
+                    }
+                },
+                "perform" => {
+                    let idx: usize = t[1].parse().unwrap();
+                    let p = pending.lock().unwrap().get_mut(idx).and_then(|x| x.take());
+                    match p {
+                        None => "PERFORM err no-such-pending".into(),
+                        Some(p) => match tree.verif_compaction_perform(p) {
+                            Ok(()) => "PERFORM ok".into(),
+                            Err(e) => format!("PERFORM err {}", err_class(&e)),
+                        },
+                    }
+                }
                 "dump" => "DUMPREQ".into(),
                 _ => format!("BADOP {}", t[0]),
             }
